@@ -5,8 +5,8 @@ NAME=$1; shift
 P=/verif/seeded/$NAME/patch.diff
 [ -f $P ] || { echo "no $P"; exit 2; }
 IDS="$@"; [ -z "$IDS" ] && IDS="C01 C02 C03 C04 C05 C06 C07 C08 C09 C10 C11 C12 C13 C14 C15 C16 C17 C18 C19 C20"
-git -C /repo checkout -q -- . ; git -C /repo apply $P || { echo "PATCH DOES NOT APPLY"; exit 2; }
-trap 'git -C /repo checkout -q -- .' EXIT
+git -C /repo checkout -q -- . ; git -C /repo clean -fdq ; git -C /repo apply $P || { echo "PATCH DOES NOT APPLY"; exit 2; }
+trap 'git -C /repo checkout -q -- . ; git -C /repo clean -fdq' EXIT
 for i in $IDS; do
   out=$(cd /verif && VERIF_TIER_OVERRIDE= ./check $i ${TIER:-quick} 2>&1); rc=$?
   echo "$NAME $i rc=$rc $(echo "$out" | grep -c '^VIOLATION') violation(s) $(echo "$out" | grep '^  check=' | head -1 | cut -c1-160)"
